@@ -113,6 +113,21 @@ func main() {
 	}
 	emit(cfg, "dhcp_paths", "dhcp", dp, extra(map[string]interface{}{"exhaustive": cfg.Thorough(),
 		"note": "every establishment prefix x own circuit-id/none x relayed x ending path x second ending path (quick: one configuration; thorough: five)"}))
+	var dn, df []vh.Case
+	for i, c := range enumRenewals() {
+		if cfg.Thorough() || i%3 == int(cfg.Seed%3) {
+			dn = append(dn, r.k.runDHCP(c))
+		}
+	}
+	emit(cfg, "dhcp_renewals", "dhcp", dn, extra(map[string]interface{}{"exhaustive": cfg.Thorough(),
+		"note": "lease through a relay with Circuit-ID (or without) x renewal carrying {the same option 82, +Remote-ID, no option 82, Remote-ID only (relayed / unicast), another Circuit-ID (+Remote-ID)} x second renewal x ending path; then new clients on both circuits"}))
+	for i, c := range enumFaults() {
+		if cfg.Thorough() || i%2 == int(cfg.Seed%2) {
+			df = append(df, r.k.runDHCP(c))
+		}
+	}
+	emit(cfg, "dhcp_faults", "dhcp", df, extra(map[string]interface{}{"exhaustive": cfg.Thorough(),
+		"note": "fault injection: each kernel map the teardown depends on (subscriber_pools, circuit_id_map, circuit_id_subscribers, qos_egress, qos_ingress, subscriber_nat; some pairs) is full during establishment x prefix x ending path; then a second client under the same fault"}))
 	nr, ng, maxOps := 70, 50, 10
 	if cfg.Thorough() {
 		nr, ng, maxOps = 2500, 1500, 18
@@ -136,6 +151,14 @@ func main() {
 	}
 	emit(cfg, "pppoe_paths", "pppoe", pp, extra(map[string]interface{}{"exhaustive": cfg.Thorough(),
 		"note": "3 configurations x establishment prefix (PADR, +LCP ack, +PAP, +IPCP ack) x 7 ending paths x second ending path"}))
+	var po []vh.Case
+	for i, c := range enumOverlap() {
+		if cfg.Thorough() || i%4 == int(cfg.Seed%4) {
+			po = append(po, r.k.runPPPoE(c))
+		}
+	}
+	emit(cfg, "pppoe_overlap", "pppoe", po, extra(map[string]interface{}{"exhaustive": cfg.Thorough(),
+		"note": "two ending paths at once: 3 configurations x establishment prefix x first path (tdpadt, tdterm, tdall) held inside SessionTeardown.cleanup at the eBPF-remove callback or at the Accounting-Response x second path (padt, lcpterm, idle, tdpadt, tdterm, tdall) released meanwhile; then a third ending and a second client"}))
 	np, npg := 60, 40
 	if cfg.Thorough() {
 		np, npg = 2000, 1000
@@ -189,6 +212,17 @@ func writeCorpus(dir string) {
 	w("f16a-expiry-keeps-nat-qos-cid-acct", "dhcp", DCase{Cfg: full, Ops: append(append([]DOp{}, est...), DOp{K: "age", D: 4200}, DOp{K: "tick"}, DOp{K: "tick"},
 		DOp{K: "disc", C: 1}, DOp{K: "req", C: 1}, DOp{K: "rel", C: 1})},
 		"fixed 81d6b2b: lease expiry left NAT block, QoS policy, circuit-id cache entries and the accounting session (regression)")
+	w("f16f-renewal-from-another-circuit", "dhcp", DCase{Cfg: full, Ops: append(append([]DOp{}, est...), DOp{K: "req", C: 0, Cid: 2, Relay: true}, DOp{K: "rel", C: 0},
+		DOp{K: "disc", C: 1, Cid: 1, Relay: true}, DOp{K: "req", C: 1, Cid: 1, Relay: true}, DOp{K: "rel", C: 1})},
+		"fixed c878197: a renewal from another circuit left the old circuit's index and circuit_id_map / circuit_id_subscribers entries, which no ending path removed (regression)")
+	w("r16-renewal-remote-id-only-then-end", "dhcp", DCase{Cfg: full, Ops: append(append([]DOp{}, est...), DOp{K: "req", C: 0, Relay: true, Rid: true}, DOp{K: "rel", C: 0},
+		DOp{K: "disc", C: 0, Cid: 1, Relay: true}, DOp{K: "req", C: 0, Cid: 1, Relay: true}, DOp{K: "req", C: 0, Rid: true}, DOp{K: "age", D: 4200}, DOp{K: "tick"},
+		DOp{K: "disc", C: 1, Cid: 1, Relay: true}, DOp{K: "req", C: 1, Cid: 1, Relay: true}, DOp{K: "decl", C: 1})},
+		"regression: a renewal whose option 82 has no Circuit-ID sub-option keeps the lease's circuit-id, so RELEASE / expiry / DECLINE still remove the circuit-id entries")
+	half := full
+	half.Full = []int{5}
+	w("r16-qos-half-installed-then-end", "dhcp", DCase{Cfg: half, Ops: append(append([]DOp{}, est...), DOp{K: "rel", C: 0}, DOp{K: "disc", C: 1}, DOp{K: "req", C: 1}, DOp{K: "age", D: 4200}, DOp{K: "tick"})},
+		"regression: qos_ingress is full, SetSubscriberQoS fails between its two map writes (egress bucket installed, nothing tracked); RELEASE and expiry must still remove the egress bucket")
 	pe := []POp{{K: "padr", C: 0}, {K: "lcpack", S: 1, C: 0}, {K: "pap", S: 1, C: 0, OK: true}, {K: "ipcpack", S: 1, C: 0}}
 	pc := PCfg{Pool: true, Radius: true}
 	w("k16c-idle-cleanup-keeps-address", "pppoe", PCase{Cfg: pc, Ops: append(append([]POp{}, pe...), POp{K: "age", D: 900}, POp{K: "idle"})},
@@ -201,6 +235,11 @@ func writeCorpus(dir string) {
 		"fixed b42d48d: a PAP reject after an earlier accept closed the session and kept its address (regression)")
 	w("f16c-teardown-twice-two-stops", "pppoe", PCase{Cfg: pc, Ops: append(append([]POp{}, pe...), POp{K: "tdterm", S: 1}, POp{K: "tdpadt", S: 1, C: 0}, POp{K: "tdterm", S: 1})},
 		"fixed f58f3aa: cleanup of one session object twice sent two Accounting-Stop records (regression)")
+	for g := 1; g <= 2; g++ {
+		w(fmt.Sprintf("r16-overlapping-teardowns-gate%d", g), "pppoe", PCase{Cfg: pc, Ops: append(append([]POp{}, pe...),
+			POp{K: "overlap", A: &POp{K: "tdterm", S: 1}, B: &POp{K: "tdpadt", S: 1, C: 0}, Gate: g}, POp{K: "tdall"})},
+			"regression: an admin disconnect held inside cleanup (1: at the eBPF callback, 2: waiting for the Accounting-Response) while the client's PADT reaches the teardown handler: one Accounting-Stop, one fast-path removal")
+	}
 	sc := SCfg{Addrs: 4, SessionSec: 86400, IdleSec: 1800}
 	se := []SOp{{K: "create", C: 0}, {K: "auth", N: 1, OK: true}, {K: "assign", N: 1}, {K: "activate", N: 1}}
 	w("k16d-manager-stop-releases-nothing", "submgr", SCase{Cfg: sc, Ops: append(append([]SOp{}, se...), SOp{K: "stop"})},
